@@ -299,6 +299,7 @@ func renderNative(b *Body) []byte {
 type jsonOpts struct {
 	tmpl   bool // strings in expression position are templates (non-nil EvalContext): escape introducers
 	arrays bool // array-of-objects form at every body and label level
+	merged bool // consecutive blocks of one type share one property and one label tree (see labelTree)
 }
 
 func jq(s string) string {
@@ -374,20 +375,122 @@ func jsonBlock(sb *strings.Builder, it *Item, o jsonOpts) {
 	}
 }
 
+// labelTree is the merged form of a run of consecutive blocks of one type
+// (json/spec.md: "a nested JSON object or JSON array of objects is required
+// for each labelling level. These are flattened to a single ordered sequence
+// of object properties"; "Arrays can be introduced at either the label
+// definition or block body definition levels to define multiple definitions of
+// the same block type or labels while preserving order"; "A JSON HCL parser
+// must support duplicate definitions of the same property name within a
+// single object, preserving all of them and the relative ordering"). A block
+// is merged into the tree along the path of the block before it only (the
+// right spine), so the depth-first order of the tree is the order of the
+// blocks: blocks that share a label prefix with their predecessor become
+// sibling properties of one object (objects form) or sibling elements of one
+// array of single-property objects (arrays form); blocks with the same full
+// label tuple as their predecessor become elements of one array of bodies; a
+// label that reappears after a different one becomes a repeated property name.
+type labelTree struct {
+	entries []labelEntry
+}
+
+type labelEntry struct {
+	label string
+	child *labelTree // a labelling level ...
+	body  *Body      // ... or a block body
+}
+
+func mergeBlocks(items []*Item) *labelTree {
+	root := &labelTree{}
+	for _, it := range items {
+		n := root
+		for _, l := range it.Labels {
+			if k := len(n.entries); k > 0 && n.entries[k-1].child != nil && n.entries[k-1].label == l {
+				n = n.entries[k-1].child
+				continue
+			}
+			c := &labelTree{}
+			n.entries = append(n.entries, labelEntry{label: l, child: c})
+			n = c
+		}
+		n.entries = append(n.entries, labelEntry{body: it.Body})
+	}
+	return root
+}
+
+func jsonLabelTree(sb *strings.Builder, n *labelTree, o jsonOpts) {
+	bodies := 0
+	for _, e := range n.entries {
+		if e.body != nil {
+			bodies++
+		}
+	}
+	switch {
+	case bodies == len(n.entries):
+		// "either a JSON object representing a single block body, or a JSON
+		// array of JSON objects that each represent a single block body"
+		if bodies == 1 && !o.arrays {
+			jsonBody(sb, n.entries[0].body, o, false)
+			return
+		}
+		sb.WriteByte('[')
+		for i, e := range n.entries {
+			if i > 0 {
+				sb.WriteByte(',')
+			}
+			jsonBody(sb, e.body, o, false)
+		}
+		sb.WriteByte(']')
+	case bodies == 0:
+		open, sep, close := "{", ",", "}"
+		if o.arrays {
+			open, sep, close = "[{", "},{", "}]"
+		}
+		sb.WriteString(open)
+		for i, e := range n.entries {
+			if i > 0 {
+				sb.WriteString(sep)
+			}
+			sb.WriteString(jq(e.label) + ":")
+			jsonLabelTree(sb, e.child, o)
+		}
+		sb.WriteString(close)
+	default:
+		// blocks of one type with different label counts: only a perturbed
+		// document has them, and those are not rendered in the merged forms
+		panic("harness: merged JSON form of blocks with different label counts")
+	}
+}
+
 func jsonBody(sb *strings.Builder, b *Body, o jsonOpts, root bool) {
+	// run returns the index of the last item of the run of consecutive blocks
+	// of one type starting at i
+	run := func(i int) int {
+		j := i
+		for j+1 < len(b.Items) && b.Items[j+1].Block && b.Items[j+1].Name == b.Items[i].Name {
+			j++
+		}
+		return j
+	}
 	if o.arrays && root {
 		// "A body is represented in JSON as either a single JSON object or a
 		// JSON array of objects": one single-property object per item. (Not
 		// usable for a block body, where an array denotes several blocks.)
 		sb.WriteByte('[')
-		for i, it := range b.Items {
+		for i := 0; i < len(b.Items); i++ {
+			it := b.Items[i]
 			if i > 0 {
 				sb.WriteByte(',')
 			}
 			sb.WriteString("{" + jq(it.Name) + ":")
-			if it.Block {
+			switch {
+			case it.Block && o.merged:
+				j := run(i)
+				jsonLabelTree(sb, mergeBlocks(b.Items[i:j+1]), o)
+				i = j
+			case it.Block:
 				jsonBlock(sb, it, o)
-			} else {
+			default:
 				jsonLit(sb, it.Val, o)
 			}
 			sb.WriteByte('}')
@@ -406,12 +509,18 @@ func jsonBody(sb *strings.Builder, b *Body, o jsonOpts, root bool) {
 			jsonLit(sb, it.Val, o)
 			continue
 		}
+		if o.merged {
+			j := run(i)
+			jsonLabelTree(sb, mergeBlocks(b.Items[i:j+1]), o)
+			i = j
+			continue
+		}
 		// consecutive blocks of one type: one property holding an array
 		// (arrays form: repeated property names instead, which json/spec.md
 		// requires a parser to support)
 		j := i
-		for !o.arrays && j+1 < len(b.Items) && b.Items[j+1].Block && b.Items[j+1].Name == it.Name {
-			j++
+		if !o.arrays {
+			j = run(i)
 		}
 		if j == i {
 			jsonBlock(sb, it, o)
